@@ -27,13 +27,16 @@ TYPES = {
     "pli": 4, "ip": 5,
     # pairs whose members have no intrinsic MPI type (shipped as raw bytes: alignment 1 for MPI) and padding; more digit counts / dimensions
     "uint": 1, "ushort": 1, "cfloat": 2, "cldouble": 2,
+    # exactly rescaled floating-point families: token v stands for v * 2^K  (K = 300, -300, -1074 (denormal) for double; 100, -149 for float)
+    "d_hi": 1, "d_lo": 1, "d_den": 1, "f_hi": 1, "f_den": 1,
     "pr_li": 2, "pr_il": 2, "pr_pc": 3, "pr_cp": 3, "pr_ed": 2, "pr_n": 3, "big16": 1, "big17": 1, "big55": 1, "fv_d2": 2, "fv_l5": 5,
 }
 MASK = {t: "1" * n for t, n in TYPES.items()}
 MASK["pli"] = "0100"; MASK["ip"] = "10100"
 FULL = [t for t in TYPES if t not in ("pli", "ip")]
-INTRINSIC_ARITH = ["int", "long", "uchar", "char", "short", "ulong", "float", "double", "ldouble", "uint", "ushort"]
-ALIAS = {"dbits": "double", "fbits": "float"}
+INTRINSIC_ARITH = ["int", "long", "uchar", "char", "short", "ulong", "float", "double", "ldouble", "uint", "ushort", "d_hi", "d_lo", "d_den", "f_hi", "f_den"]
+ALIAS = {"dbits": "double", "fbits": "float", "d_hi": "double", "d_lo": "double", "d_den": "double", "f_hi": "float", "f_den": "float"}
+SCALED = {"d_hi": "double", "d_lo": "double", "d_den": "double", "f_hi": "float", "f_den": "float"}
 STATIC_RANGE = ["fv_d3", "fv_i1", "fv_c3", "fv_d2", "fv_l5"]     # types with data()/size() but no resize(): MPIData describes them as n x K
 
 
@@ -52,6 +55,7 @@ def elem_any(rng, ty):
     if ty == "ulong": return [pick(r, [0, 1, 2 ** 64 - 1, 2 ** 63], 0, 2 ** 64)]
     if ty == "float": return [pick(r, [0, 1, -1, 2 ** 24 - 1, -(2 ** 24)], -(2 ** 24), 2 ** 24)]
     if ty == "double": return [pick(r, [0, 1, -1, 2 ** 53 - 1, -(2 ** 53)], -(2 ** 53), 2 ** 53)]
+    if ty in SCALED: return elem_any(r, SCALED[ty])
     if ty == "ldouble": return [pick(r, [0, 1, -1, 2 ** 62 - 1], -(2 ** 62), 2 ** 62)]
     if ty == "dbits": return [pick(r, [0, 1 << 63, 0x7ff0000000000000, 0xfff0000000000000, 0x7ff8000000000000, 0x7ff0000000000001,
                                         0x7fefffffffffffff, 1, 0x000fffffffffffff, 2 ** 64 - 1], 0, 2 ** 64)]
@@ -114,21 +118,27 @@ def coll_line(comm, op, fn, ty, P, root, ln, lens, displs, ins, outs):
 
 # which reductions a type supports (mirrors OpsOf in the harness); value bound keeps every partial result exactly representable
 SUM_T = {"uint": 10 ** 6, "ushort": 1000, "cfloat": 1000, "cldouble": 10 ** 6, "int": 10 ** 6, "long": 10 ** 12, "uchar": 20, "char": 10, "short": 1000, "ulong": 10 ** 12, "llong": 10 ** 12, "float": 1000, "double": 10 ** 9,
+         "d_hi": 10 ** 9, "d_lo": 10 ** 9, "d_den": 10 ** 9, "f_hi": 1000, "f_den": 1000,
          "ldouble": 10 ** 12, "cdouble": 10 ** 6, "fv_d3": 10 ** 6, "fv_i1": 10 ** 6, "fv_c3": 10, "big64": 10 ** 12, "big100": 10 ** 12}
 PROD_T = {"uint": 30, "ushort": 5, "cfloat": 3, "cldouble": 5, "int": 30, "long": 1000, "uchar": 2, "short": 5, "ulong": 1000, "llong": 1000, "float": 8, "double": 100, "ldouble": 1000, "cdouble": 5}
-ORD_T = ["uint", "ushort", "int", "long", "uchar", "char", "short", "ulong", "llong", "float", "double", "ldouble", "big64"]
+ORD_T = ["d_hi", "d_lo", "d_den", "f_hi", "f_den", "uint", "ushort", "int", "long", "uchar", "char", "short", "ulong", "llong", "float", "double", "ldouble", "big64"]
 XOR_T = ["uint", "ushort", "int", "long", "uchar", "short", "ulong", "llong", "big64"]
 
 
 def red_elem(rng, ty, fn):
     if fn in ("plus", "uplus"): return elem_small(rng, ty, SUM_T[ty])
     if fn == "mult": return elem_small(rng, ty, PROD_T[ty])
-    if fn in ("min", "max"):
+    if fn in ("min", "max", "xor"):
+        # the full range of the type (the model driver computes on arbitrary-size integers): unsigned long / bigunsignedint<64> on both
+        # sides of 2^63, long at its extremes
         e = elem_any(rng, ty)
-        return [max(min(x, 2 ** 62 - 1), -(2 ** 62)) for x in e]
-    if fn == "xor":
-        e = elem_any(rng, ty)
-        return [max(min(x, 2 ** 62 - 1), -(2 ** 62)) for x in e]
+        if ty == "ulong" and fn in ("min", "max"):
+            # Min/Max<unsigned long> map to the BUILT-IN MPI_MIN/MPI_MAX on MPI_UNSIGNED_LONG, and the installed MPI library (Open MPI 4.1.4)
+            # itself compares those operands as SIGNED (plain C MPI_Allreduce of {1, 2^63}: max = 1, min = 2^63 -- no Dune code involved).
+            # The library's collectives are the trusted spec of C07, so values >= 2^63 stay out of this one combination; unsigned long
+            # beyond 2^63 is still reduced through the trampoline (xor, uplus) and moved by every collective.
+            e = [min(x, 2 ** 63 - 1) for x in e]
+        return e
     if fn == "maxsum": return [elem_any(rng, "int")[0], rng.randrange(-10 ** 9, 10 ** 9)]
     raise KeyError(fn)
 
@@ -212,11 +222,12 @@ def gen_coll(ctx, comm, P, N):
             cases.append(coll_line(comm, op, "-", ty, P, root, ln, [], [], ins, outs))
         elif op in ("igather1", "iallgather1"):
             ins = [buf(ty, 1) for _ in range(P)]
-            outs = [buf(ty, P + ex) for r in range(P)]
+            # igather: the receive object is significant at the root only: other ranks hold objects of OTHER sizes (also empty)
+            outs = [buf(ty, P + ex) if (r == root or op == "iallgather1" or seq or rng.random() < 0.4) else buf(ty, rng.choice([0, 0, 1, 2])) for r in range(P)]
             cases.append(coll_line(comm, op, "-", ty, P, root, 1, [], [], ins, outs))
         elif op in ("igatherV", "iallgatherV"):
             ln = max(ln, 1); ins = [buf(ty, ln) for _ in range(P)]
-            outs = [buf(ty, P * ln + ex) for r in range(P)]
+            outs = [buf(ty, P * ln + ex) if (r == root or op == "iallgatherV" or rng.random() < 0.4) else buf(ty, rng.choice([0, 0, 1, ln])) for r in range(P)]
             cases.append(coll_line(comm, op, "-", ty, P, root, ln, [], [], ins, outs))
         elif op in ("gatherv", "allgatherv"):
             lens = [rng.choice([0, 1, 2, 3, 17] if rng.random() < 0.2 else [0, 1, 2, 3]) for _ in range(P)]
@@ -228,17 +239,19 @@ def gen_coll(ctx, comm, P, N):
                 displs[r] = pos; pos += lens[r] + rng.choice([0, 0, 1])
             ins = [buf(ty, lens[r]) for r in range(P)]
             outs = [buf(ty, pos + ex) if (r == root or op == "allgatherv" or rng.random() < 0.5) else buf(ty, 0) for r in range(P)]
-            cases.append(coll_line(comm, op, "-", ty, P, root, 0, lens, displs, ins, outs))
+            # asym: the non-root ranks pass count / displacement arrays that DIFFER from the root's (significant at the root only)
+            cases.append(coll_line(comm, op, "asym" if (op == "gatherv" and not seq and P > 1 and rng.random() < 0.5) else "-", ty, P, root, 0, lens, displs, ins, outs))
         elif op == "scatter":
             ins = [buf(ty, P * ln + ex) if r == root else buf(ty, rng.choice([0, 1])) for r in range(P)]
             outs = [buf(ty, ln + rng.choice([0, 1])) for _ in range(P)]
             cases.append(coll_line(comm, op, "-", ty, P, root, ln, [], [], ins, outs))
         elif op == "iscatter1":
-            ins = [buf(ty, P) for r in range(P)]
+            # iscatter: the send object is significant at the root only: other ranks hold objects of OTHER sizes (also empty)
+            ins = [buf(ty, P) if (r == root or seq or rng.random() < 0.4) else buf(ty, rng.choice([0, 0, 1, P + 1])) for r in range(P)]
             outs = [buf(ty, 1) for _ in range(P)]
             cases.append(coll_line(comm, op, "-", ty, P, root, 1, [], [], ins, outs))
         elif op == "iscatterV":
-            ln = max(ln, 1); ins = [buf(ty, P * ln) for r in range(P)]
+            ln = max(ln, 1); ins = [buf(ty, P * ln) if (r == root or rng.random() < 0.4) else buf(ty, rng.choice([0, 0, 1, P * ln + 1])) for r in range(P)]
             outs = [buf(ty, ln) for _ in range(P)]
             cases.append(coll_line(comm, op, "-", ty, P, root, ln, [], [], ins, outs))
         elif op == "scatterv":
@@ -248,7 +261,7 @@ def gen_coll(ctx, comm, P, N):
             if seq and rng.random() < 0.4: displs[0] = 0
             ins = [buf(ty, total) if r == root else buf(ty, rng.choice([0, 1])) for r in range(P)]
             outs = [buf(ty, lens[r] + rng.choice([0, 1])) for r in range(P)]
-            cases.append(coll_line(comm, op, "-", ty, P, root, 0, lens, displs, ins, outs))
+            cases.append(coll_line(comm, op, "asym" if (not seq and P > 1 and rng.random() < 0.5) else "-", ty, P, root, 0, lens, displs, ins, outs))
     return cases
 
 
@@ -257,14 +270,14 @@ def gen_p2p(ctx, N):
     cases = []
     for it in range(N):
         op = rng.choice(["rrecv", "rrecv", "rrecv_lv", "recv", "isend_irecv", "scalar", "rrecv_str", "rrecv_pack",
-                         "rrecv_twice", "rrecv_twice", "rrecv_status", "recv_status", "irecv0"])
+                         "rrecv_twice", "rrecv_twice", "rrecv_status", "recv_status", "irecv0", "isend_irecv_lv"])
         ty = rng.choice(list(TYPES))
         n = rng.choice([0, 1, 2, 3, 17]); m = rng.choice([0, 1, 2, 5])
         if op == "rrecv_str": ty = "char"
         if op == "rrecv_pack": ty = rng.choice(FULL); m = rng.choice([0, 1])
-        if op in ("recv", "isend_irecv", "recv_status"): m = n + rng.choice([0, 1, 2])
+        if op in ("recv", "isend_irecv", "isend_irecv_lv", "recv_status"): m = n + rng.choice([0, 1, 2])
         if op in ("rrecv_status", "recv_status", "irecv0"): ty = rng.choice(FULL)
-        if op == "isend_irecv": m = max(m, 1)
+        if op in ("isend_irecv", "isend_irecv_lv"): m = max(m, 1)
         if op == "scalar": n = 1; m = rng.choice([1, 2])
         sent = [elem_any(rng, ty) for _ in range(n)]; pre = [elem_any(rng, ty) for _ in range(m)]
         cases.append("p2p %s %s %s %s %s" % (op, ty, MASK[ty], sh_buf(sent), sh_buf(pre)))
@@ -339,7 +352,10 @@ def gen_pks(ctx, table, N):
         if it.get("q"): return 4 + (0 if it["hex"] == "_" else len(it["hex"]) // 2)
         return (4 if it["d"] else 0) + it["n"] * table[it["ty"]]["packsize"]
     def rtok(it):
-        if it.get("q"): return "u|%s" % it["hex"]
+        if it.get("q"):
+            if rng.random() < 0.5:      # the pack read into already holds other bytes and a cursor
+                j = rng.choice([1, 2, 5, 12]); return "u|%s|%s|%d" % (it["hex"], rbytes(rng, j).hex(), rng.choice([0, j, rng.randrange(j + 1)]))
+            return "u|%s" % it["hex"]
         return "r|%s|%s|%s" % ("d" if it["d"] else "s", it["ty"], masked_expect(table, it["ty"], it["hex"], it["d"]))
     def qitem():
         return {"q": True, "hex": rbytes(rng, rng.choice([0, 1, 3, 8])).hex() or "_"}
@@ -393,10 +409,14 @@ def gen_pks(ctx, table, N):
         if kind == "raw" and rng.random() < 0.3:      # MPIPack(comm, size) with a non-default size: written over from cursor 0
             ops.insert(0, "n|%d" % rng.choice([0, 1, 5, 40]))
             ops.insert(1, "k|end")
-        if rng.random() < 0.6: ops.append("x")
+        z = rng.random()
+        if z < 0.3: ops.append("x")
+        elif z < 0.65:      # the receiving pack already holds other bytes (more or fewer than the message) and a cursor
+            j = rng.choice([1, 3, 9, 40]); ops.append("x|%s|%d" % (rbytes(rng, j).hex(), rng.choice([0, j, rng.randrange(j + 1)])))
         if slots is not None:
             ops.append("k|0"); ops += [rtok(i) for i in slots]
         cases.append("pks %d %s" % (rng.choice([0, 0, 1, 3]), " ".join(ops)))
+        # (the position of an "x|.." hop is found by its prefix)
     return cases
 
 
@@ -451,7 +471,7 @@ def oracle_pks(case, impl, spec):
         elif it[0] == "x":
             got = bytes.fromhex(f[0]) if f[0] != "_" else b""
             if got != buf: return "op %d: received pack holds %s, sent %s" % (i, got.hex()[:100], buf.hex()[:100])
-            pos = 0
+            pos = int(it[2]) if len(it) >= 3 else 0      # rrecv never seeks: the cursor of the receiving pack stays
         elif it[0] == "r":
             if f[0] != it[3]: return "op %d: read back %s, last written there %s" % (i, f[0][:100], it[3][:100])
             pos = tell     # the cursor after a read is checked against the model (correspondence); here: must not pass the end
@@ -622,9 +642,9 @@ def run(ctx):
         samples += cases[:1]
         for c, m, a in zip(cases, mo, io):
             ncase += 1
-            t = toks(c); k = t[0] + ":" + (t[1] + ":" + t[2] if t[0] == "coll" else t[1] if t[0] in ("p2p",) else t[3] if t[0] == "dt" else "")
+            t = toks(c); k = t[0] + ":" + (t[1] + ":" + t[2] + (":asym" if t[3] == "asym" else "") if t[0] == "coll" else t[1] if t[0] in ("p2p",) else t[3] if t[0] == "dt" else "")
             if t[0] == "pks":
-                k = "pks:" + ("hop" if "x" in t else "local") + (":typed-readback" if any(o.startswith("r|") for o in t) else ":bytes")
+                k = "pks:" + ("hop" if "x" in t else "hop-into-used" if any(o.startswith("x|") for o in t) else "local") + (":typed-readback" if any(o.startswith("r|") for o in t) else ":bytes")
             kinds[k] = kinds.get(k, 0) + 1
             kinds["comm:" + comm_of(c)] = kinds.get("comm:" + comm_of(c), 0) + 1
             mm, _, spec = m.partition(" | ")
